@@ -43,7 +43,7 @@ def opOfRec (s : St Float) (r : Rec) : Option (Op Float) :=
       dmgType := r.nat "dtype", terms := parseTerms r, flat := r.flt "flat", hitRatio := r.flt "ratio",
       asPure := r.bool "pure", energyGain := r.flt "energy", stanceDamage := r.flt "stance",
       bbd := r.flt "bbd", draws := r.flts "draws",
-      adj := if r.has "hadj" then some { onlyTgt := r.int "honly", attDmgAdd := r.flt "hdmg", attCritAdd := r.flt "hcrit", defTakenAdd := r.flt "htaken" } else none })
+      adj := if r.has "hadj" then some { onlyTgt := r.int "honly", attDmgAdd := r.flt "hdmg", attCritAdd := r.flt "hcrit", defTakenAdd := r.flt "htaken", defReduceAdd := r.flt "hreduce", attFatigueAdd := r.flt "hfatigue" } else none })
   | "endattack" => some .endAttack
   | "heal" => some (.heal {
       key := 0, src := r.int "src", targets := r.ints "targets", terms := parseTerms r, flat := r.flt "flat",
